@@ -89,6 +89,24 @@ def orphans (st : LS) : List String :=
       if !nameExists st n then some ("category:" ++ n)
       else if !st.categoryNames.contains c then some ("undeclared-category:" ++ c) else none)
 
+/-- unit definitions whose value is a substance (`air`, `Hg`, …): names whose stored substance
+differs from what the definition text denotes in the finished database — in particular when a
+name in it has meanwhile acquired an exact, prefixed or plural unit reading -/
+def fixedPointSubstBad (st : LS) : List String :=
+  let ctx := mkCtx st {}
+  sortedStrings <| st.substDefs.toList.filterMap fun (n, e) =>
+    match st.substances[n]? with
+    | none => some n
+    | some stored =>
+      match Eval.evalExpr ctx e with
+      | .unsupported _ =>
+        (match evalSubstance st 64 e with
+         | some s =>
+           let s := if s.name.contains '+' then { s with name := n } else s
+           if s == stored then none else some n
+         | none => some n)
+      | _ => some n
+
 structure Report where
   errors : List String
   fixedPointBad : List String
@@ -96,12 +114,14 @@ structure Report where
   quantityMismatch : List String
   danglingAliases : List String
   orphans : List String
+  fixedPointSubstBad : List String
 deriving Repr, DecidableEq
 
 def report (st : LS) : Report :=
   { errors := st.errors, fixedPointBad := fixedPointBad st, foreignDims := foreignDims st,
-    quantityMismatch := quantityMismatch st, danglingAliases := danglingAliases st, orphans := orphans st }
+    quantityMismatch := quantityMismatch st, danglingAliases := danglingAliases st, orphans := orphans st,
+    fixedPointSubstBad := fixedPointSubstBad st }
 
-def Report.clean : Report := ⟨[], [], [], [], [], []⟩
+def Report.clean : Report := ⟨[], [], [], [], [], [], []⟩
 
 end Rink.Load
